@@ -41,6 +41,12 @@ def run_p(seed, tier, replay=None):
 
 
 def run(seed, tier, replay=None):
-    return mix.merge(run_p(seed, tier, replay), mix.check([mix.mon_concurrency], seed, tier))
+    r = mix.merge(run_p(seed, tier, replay), mix.check([mix.mon_concurrency], seed, tier))
+    # "slots are passed in NEXTEST_TEST_GLOBAL_SLOT / NEXTEST_TEST_GROUP / NEXTEST_TEST_GROUP_SLOT": also when setup scripts write
+    # look-alike keys (family scr; only the slot-variable monitor counts here)
+    from props import scr
+    part = scr.check(seed, tier, 4, 30)
+    part["violations"] = [v for v in part["violations"] if v.get("kind") == "slot-env"]
+    return mix.merge(r, part)
 
 KNOWN_MATCHERS = {}
